@@ -428,6 +428,17 @@ def emit(ctx, proofs, level="proof"):
     ] + cov["trusted_base"]
     if proofs["failures"]:
         cov["proof_failures"] = proofs["failures"]
+    # schema hygiene: the keys the evidence schema types as integers / list / bool
+    for k in ("evaluations", "distinct_nontrivial", "states", "transitions", "programs",
+              "traces_validated_against_impl", "disagreements_checked"):
+        if k in cov and not (isinstance(cov[k], int) and not isinstance(cov[k], bool)):
+            cov[k + "_detail"] = cov.pop(k)
+    if "samples" in cov and not isinstance(cov["samples"], list):
+        cov["samples"] = [cov["samples"]]
+    if "exhaustive" in cov and not isinstance(cov["exhaustive"], bool):
+        cov["exhaustive_detail"] = cov.pop("exhaustive")
+    if "explanation" in cov and not isinstance(cov["explanation"], str):
+        cov["explanation"] = json.dumps(cov["explanation"])
     cov.setdefault("evaluations", 0)
     cov.setdefault("distinct_nontrivial", 0)
     cov.setdefault("samples", [])
